@@ -89,6 +89,19 @@ Print Assumptions C09_pad_wrap_sym_oversize.
 
 (* ================================================================= FilterConv = convolution with the extension *)
 
+(* the constructor ("assert shape % 2 == 1", "pad_sizes = shape // 2") establishes the shape hypothesis used below:
+   weights.shape = 2 * pad_sizes + 1 with pad_sizes >= 0 *)
+Theorem C09_constructor_shape : forall (K : Type) (H : Num K) (g : grid) (w : arr3 K)
+  (bx0 bx1 by0 by1 bz0 bz1 : bmode K) upts kx ky kz,
+  shape3 w = (kx, ky, kz) -> kx mod 2 = 1 -> ky mod 2 = 1 -> kz mod 2 = 1 ->
+  let f := mk_fconv g w bx0 bx1 by0 by1 bz0 bz1 upts in
+  let c := fc_pad f in
+  pads_nonneg c /\ shape3 (fc_w f) = (2 * ppx c + 1, 2 * ppy c + 1, 2 * ppz c + 1) /\
+  pg c = g /\ fc_w f = w /\
+  (mx0 c, mx1 c, my0 c, my1 c, mz0 c, mz1 c) = (bx0, bx1, by0, by1, bz0, bz1).
+Proof. exact @mk_fconv_odd. Qed.
+Print Assumptions C09_constructor_shape.
+
 (* np.add.at(y, el3d_orig, y3d): entry (a, b, d) of the valid-mode convolution lands at its element number *)
 Theorem C09_response_scatter : forall (K : Type) (H : Num K),
   ring_theory nzero none_ nadd nmul nsub nopp (@eq K) ->
